@@ -162,7 +162,7 @@ def run(ck, a):
       g = fr.eq(lift(q2[i]), lift(q[i]))
       for cs in cases:
         sg = [(t >= 0) if c > 0 else (t <= 0) for t, c in zip(hts, cs)]
-        ck.add(Ob('q-roundtrip/%s/q%d/signs=%s' % (tag, i, ''.join('+' if c > 0 else '-' for c in cs)), side + sg, g, timeout=100 if is_core else 300, core=is_core and claimed,
+        ck.add(Ob('q-roundtrip/%s/q%d/signs=%s' % (tag, i, ''.join('+' if c > 0 else '-' for c in cs)), side + sg, g, timeout=100 if is_core else 60, core=is_core and claimed,
                   meta={'tag': tag, 'i': i, 'what': 'q', 'finding_key': None if claimed else KNOWN}))
     if free_root:
       rq = [q[3 + c] for c in range(4)]
